@@ -22,7 +22,7 @@ RULE = ('cases = (table, key, count field, conflicts arguments, presorted, buffe
 ASSUMPTIONS = ['rectangular tables with hashable cells (property domain)', 'key equality is Python == on key tuples']
 REQUIRED = ['rows=0', 'rows=1', 'run>=3-at-start', 'run>=3-in-middle', 'run>=3-at-end', 'key-none', 'key-compound', 'key-index',
             'count-column', 'conflict-group', 'agreeing-duplicate-group', 'none-key-duplicated', 'presorted', 'input-is-a-petl-view', 'row-containers:mixed', 'row-containers:tuples', 'buffersize-chunked', 'later-pass-after-edit(cache=False)', 'pass-after-a-failed-pass', 'later-pass-after-columns-rearranged(cache=False)']
-CELLS = [None, 1, 1.0, True, 2, 'a', b'a', 'b', (1, 2), gen.D(2020, 1, 1), 0, '']
+CELLS = [None, 1, 1.0, True, 2, 'a', b'a', 'b', (1, 2), gen.D(2020, 1, 1), gen.DT(2020, 1, 1, 0, 0), 0, '']      # a date and the datetime at its midnight are different keys
 
 
 def _mk(table, key, **kw):
